@@ -1,5 +1,6 @@
 import PlushModel
 import PlushProofs.Lib.LexerTotal
+import PlushProofs.Lib.ParserTotalProof
 /-!
   C03 — parsing is total. Theorems over the model of lexer + parser (PlushModel/Lexer.lean,
   PlushModel/Parser.lean), which the `parse-tok` / `parse-text` correspondence streams tie to /repo.
@@ -75,5 +76,23 @@ example : (LX.new #[60, 37, 61, 32, 97, 32, 37, 62]).WF ∧ ¬ (LX.new #[60, 37,
   rcases h with ⟨_, h⟩ | h
   · exact absurd h (by decide)
   · exact absurd h (by decide)
+
+/-! ### Theorem B — the parser terminates on every input (proofs in `PlushProofs/Lib/ParserTotalProof.lean`) -/
+
+/-- PARSING IS TOTAL ON EVERY TOKEN STREAM that ends in EOF: the model of `parser.Parse` returns a program and
+    an error list. Its recursion-depth budget (`parseFuel`, linear in the number of tokens) is never exhausted —
+    `outOfFuel`, the model's stand-in for a hang or an unbounded recursion, is unreachable — because every cycle
+    of the twenty mutually recursive parse functions consumes a token, and every loop stops at EOF. -/
+theorem C03_parser_total_tokens (toks : Array Token)
+    (h : (toks.back?.getD { type := .EOF, lit := [], line := 1 }).type = .EOF) :
+    ∃ prog errs, parseToks toks = .ok (prog, errs) := by
+  obtain ⟨r, hr⟩ := parseToks_total toks h
+  exact ⟨r.1, r.2, hr⟩
+
+/-- PARSING IS TOTAL ON EVERY SOURCE TEXT (lexer and parser together): for every byte string the model of
+    `plush.Parse` yields a program or a list of syntax errors; never a crash, never a hang. -/
+theorem C03_parse_total (src : Bytes) : ∃ prog errs, parseBytes src = .ok (prog, errs) := by
+  obtain ⟨r, hr⟩ := parseBytes_total src
+  exact ⟨r.1, r.2, hr⟩
 
 end Plush
